@@ -18,6 +18,7 @@ CHECKS['C18'] = {
     'rule': 'tbd',
     'assumptions': [],
     'units': [
+        unit('legacy', 'controller_c18', '^TestVerifC18', {'shards': 4, 'checks': 1500}, {'shards': 1, 'checks': 10}),
         unit('fed', 'federation_c18', '^TestVerifC18', {'shards': 8, 'checks': 1500}, {'shards': 1, 'checks': 10}),
     ],
 }
